@@ -245,6 +245,15 @@ class Engine(object):
         self._feas_cache[key] = res
         return res
 
+    def entails(self, st, cond, timeout_ms=2000):
+        s = z3.Solver()
+        s.set("timeout", timeout_ms)
+        pcq = [p for p in st.pc if not ops.has_quantifier(p)]
+        s.add(*pcq)
+        s.add(*[a for a in ops.axioms_for(pcq + [cond]) if not ops.has_quantifier(a)])
+        s.add(z3.Not(cond))
+        return s.check() == z3.unsat
+
     # ------------------------------------------------------------- name lookup
     def lookup(self, name, st, mod):
         if name in st.env:
@@ -511,6 +520,16 @@ class Engine(object):
             raise EngineError("operator %s on %r and %r (line %s)" % (op, type(a).__name__, type(b).__name__, getattr(node, "lineno", "?")))
         if self.bv and op in ('&', '|', '^', '<<', '>>') and not (is_bv(a) or is_bv(b)) and (is_z3(a) or is_z3(b)):
             raise EngineError("bitwise operator on Int terms in bit-vector mode")
+        if op == '|' and not self.bv and (is_z3(a) or is_z3(b)) and not (is_real(a) or is_real(b)):
+            x, y = to_int_term(a), to_int_term(b)
+            if ops.or_disjoint(x, y) is None:
+                # not syntactically disjoint: x | y == x + y still holds if, on this path, one operand
+                # is a multiple of 2^k and the other lies in [0, 2^k)  (entailment checked here)
+                for p_, q_ in ((x, y), (y, x)):
+                    zb = ops._low_zero_bits(p_)
+                    if 0 < zb < 10 ** 5 and self.entails(st, z3.And(q_ >= 0, q_ < (1 << zb))):
+                        return [(st, p_ + q_)]
+                raise EngineError("| on Int terms whose bit ranges cannot be shown disjoint (line %s)" % getattr(node, "lineno", "?"))
         return self._with_arith(st, node, lambda ar: ar.binop(op, a, b))
 
     def seq_repeat(self, s, n):
@@ -766,6 +785,9 @@ class Engine(object):
         if isinstance(base, ObjV):
             if attr in base.fields:
                 return [(st, base.fields[attr])]
+            ext0 = self.externals.get(base.cls + "." + attr)
+            if ext0 is not None:
+                return [(st, ExternalMethod(ext0, base, attr))]
             m = self.find_method(base.cls, attr)
             if m is not None:
                 fv, kind = m
@@ -1927,8 +1949,9 @@ class Engine(object):
         names, recv = self.assigned_names(node.body + ([node.target] if is_for else []))
         # objects whose methods are called in the body may be mutated (rebinding model)
         mod_names = set(names)
+        keep = set(self.options.get("loop_keep", ()))     # declared frame: not modified by any loop
         for r in recv:
-            if r in st.env and isinstance(st.env[r], (ObjV, ListV, SeqV, MapV, SetV)):
+            if r in st.env and isinstance(st.env[r], (ObjV, ListV, SeqV, MapV, SetV)) and r not in keep:
                 mod_names.add(r)
         has_yield = any(isinstance(n, (ast.Yield, ast.YieldFrom)) for b in node.body for n in ast.walk(b))
 
